@@ -144,6 +144,17 @@ pub fn plan(prop: &str, tier: Tier) -> Option<Plan> {
                 v
             },
         ),
+        "C16" => (
+            "exploration",
+            "child processes: (a) the full grid of 16 clone entry points (Arc<T>, Arc<[T]>, Arc<dyn>, ThinArc, OffsetArc::clone/clone_arc, ArcBorrow::clone_arc, ArcUnion first/second, clone inside ThinArc::with_arc / OffsetArc::with_arc / with_raw_offset_arc / ArcBorrow::with_arc, arc-swap RefCnt::inc, Arc<HeaderSlice>, Arc<str>) x the 10 listed starting counts, enumerated completely in both the std and the no_std configuration; (b) proptest-generated (entry point, count) with counts boundary-biased over the whole usize range (within 4096 of isize::MAX on either side, random above, random below). The child creates the handle, learns the counter's address from its first atomic access through the shim (cross-checked with heap_ptr), presets it, calls the entry point inside catch_unwind. Oracle: below isize::MAX -> exit 0 and count = start+1; above -> SIGABRT/SIGILL with no handle produced and nothing catchable; exactly isize::MAX -> either, cleanly. Non-trivial: start > isize::MAX, or start = isize::MAX-1 (the largest count that must succeed).".into(),
+            vec!["the count is preset, not reached by 2^63 clones (the library keeps no other state)".into(), "no_std = a no_std build of triomphe linked into a std harness".into()],
+            vec![
+                job(eng::c16::C16Engine { fixed_grid: true }, 0, "all"),
+                job(eng::c16::C16Engine { fixed_grid: true }, 0, "nostd"),
+                job(eng::c16::C16Engine { fixed_grid: false }, if q { 320 } else { 4000 }, "all"),
+                job(eng::c16::C16Engine { fixed_grid: false }, if q { 320 } else { 4000 }, "nostd"),
+            ],
+        ),
         _ => return None,
     };
     Some(Plan { property: prop.to_string(), level, rule, assumptions, jobs })
